@@ -26,18 +26,50 @@ func MustParseDate(s string) Date {
 func ParseDate(s string) (Date, error) {
 	if s == "" {
 		return Date{}, fmt.Errorf("blank date string")
-	} else if date, err := time.ParseInLocation("2006-01-02", s, time.Local); err != nil {
+	} else if date, err := time.Parse("2006-01-02", s); err != nil {
 		return Date{}, err
 	} else {
-		return Date(date), nil
+		return Date(startOfDay(date.Year(), date.Month(), date.Day())), nil
 	}
 }
 
 // Utility function to explicitly construct a Date from year, month and day.
 func ToDate(year int, month time.Month, day int) Date {
-	date := time.Date(year, month, day, 0, 0, 0, 0, time.Local)
+	date := startOfDay(year, month, day)
 
 	return Date(date)
+}
+
+// Returns the start of a calendar day in the local time zone.
+//
+// Local midnight does not exist on days on which a daylight saving (or other UTC offset)
+// change skips 00:00 (e.g. 2022-09-11 in America/Santiago) and time.Date then normalises
+// to an instant on the previous day. For those days the first instant of the requested
+// day is returned instead.
+func startOfDay(year int, month time.Month, day int) time.Time {
+	sameday := func(t time.Time) bool {
+		y, m, d := t.Date()
+		return y == year && m == month && d == day
+	}
+
+	date := time.Date(year, month, day, 0, 0, 0, 0, time.Local)
+	noon := time.Date(year, month, day, 12, 0, 0, 0, time.Local)
+	if sameday(date) || !sameday(noon) || !date.Before(noon) {
+		return date
+	}
+
+	// ... binary search for the UTC offset transition that skipped midnight
+	lo, hi := date, noon
+	for hi.Sub(lo) > time.Second {
+		mid := lo.Add(time.Duration(int64(hi.Sub(lo)/time.Second)/2) * time.Second)
+		if sameday(mid) {
+			hi = mid
+		} else {
+			lo = mid
+		}
+	}
+
+	return hi
 }
 
 // Returns true if the date is the zero value.
@@ -145,10 +177,10 @@ func (d *Date) UnmarshalUT0311L0x(bytes []byte) (any, error) {
 		}
 	}
 
-	if date, err := time.ParseInLocation("20060102", decoded, time.Local); err != nil {
+	if date, err := time.Parse("20060102", decoded); err != nil {
 		return &Date{}, nil
 	} else {
-		v := Date(date)
+		v := Date(startOfDay(date.Year(), date.Month(), date.Day()))
 
 		return &v, nil
 	}
@@ -175,12 +207,12 @@ func (d *Date) UnmarshalJSON(bytes []byte) error {
 		return nil
 	}
 
-	date, err := time.ParseInLocation("2006-01-02", s, time.Local)
+	date, err := time.Parse("2006-01-02", s)
 	if err != nil {
 		return err
 	}
 
-	*d = Date(date)
+	*d = Date(startOfDay(date.Year(), date.Month(), date.Day()))
 
 	return nil
 }
